@@ -368,6 +368,28 @@ def edge_reply(rng, q, idx):
     return {"kind": "bufedge", "matched": True}, proto.build_data_answer(q["id"], q["labels"], qt, fill, enc)
 
 
+def hist_probe(rng, q, i):
+    """Matching replies that end 'early' in the client's own terms: record types crossed between question and answer
+    (the decoder picks its branch from the question, the caller its post-processing from the record), short rdata
+    without a terminator, short payloads - shapes whose handling could pick up what an earlier, longer reply left behind."""
+    qid, labels, qt = q["id"], q["labels"], q["qtype"]
+    ptr = b"\xc0\x0c"
+    k = i % 6
+    if k in (1, 2):
+        ta = [D.T_MX, D.T_SRV][k - 1]
+        body = rng.choice([b"hfresh", b"hab", b"h" + bytes(rng.choice(b"abcdefgh234567") for _ in range(40))])
+        return {"kind": "histprobe-x%s" % D.TYPENAMES.get(ta, ta), "matched": True}, \
+            _q(qid, 0x8400, labels, rng.choice([D.T_NULL, D.T_PRIVATE, qt]), 1) + _rr(ptr, ta, body)
+    if k == 3:
+        return {"kind": "histprobe-short", "matched": True}, proto.build_data_answer(qid, labels, qt, bytes([0x80, 0x20]) + b"abc", "T")
+    if k == 4:
+        return {"kind": "histprobe-txt", "matched": True}, _q(qid, 0x8400, labels, D.T_TXT, 1) + _rr(ptr, D.T_TXT, b"\x04tabc")
+    if k == 5:
+        return {"kind": "histprobe-cname", "matched": True}, _q(qid, 0x8400, labels, rng.choice([D.T_CNAME, D.T_A]), 1) + \
+            _rr(ptr, D.T_CNAME, b"\x04habc\x02xy\x00")
+    return {"kind": "histprobe-null", "matched": True}, _q(qid, 0x8400, labels, D.T_NULL, 1) + _rr(ptr, D.T_NULL, b"\x80\x20zz")
+
+
 def client_reply(rng, q, real=None):
     """q = dict(id, labels, qtype, ids=[recent ids]).  -> (tag dict, bytes).
     tag['matched'] tells whether id and question fit the query the client is waiting for."""
